@@ -1,6 +1,976 @@
-//! C12 -- monitor (to be written)
-use crate::fw::ctx;
+//! C12 -- equality checkers never give a wrong definite answer.
+//!
+//! Events: every entry point of `quizx::equality` on generated pairs of circuits (n <= 4)
+//! and on the diagrams derived from them (raw translation or simplified):
+//!   equal_circuit_with_options(c1,c2,up_to_phase) / equal_circuit,
+//!   equal_graph_with_options(g1,g2,up_to_phase)   / equal_graph,
+//!   equal_circuit_tensor / equal_graph_tensor, equal_circuit_dim / equal_graph_dim.
+//! Ground truth: circuit level from the gate-matrix simulator O3 (`oracle::sim`), graph level
+//! from the independent diagram evaluator O2 applied to the very diagrams handed to the
+//! checker: exactly equal / equal up to a global phase / different / different arity.
+//! Oracle: Some(true) => equal for the requested mode; Some(false) => not exactly equal or
+//! arities differ; None always allowed but counted; tensor check <=> exactly equal (exact
+//! pool; in the float pool only `true => equal within 1e-9`); dim check <=> arities equal.
+//!
+//! Readings: the rewriting-based check composes one diagram with the adjoint of the other,
+//! which is only meaningful for unitaries ("circuits or unitary diagrams"); the judged
+//! families therefore contain unitary circuits only. A small ancilla family is *observed*
+//! (counters `observed:nonunitary:*`), never judged. A panic of a checker is reported as a
+//! violation of its own class (`|panic:`): the functions are total by their signatures.
+
+use crate::fw::{ctx, guarded, par_cases, Caught};
+use crate::gen::circuit::{circ_hash, circ_json, from_quizx, gen_circuit, gen_ph, to_quizx, CircParams, PhPool};
+use crate::gen::prng::Rng;
+use crate::oracle::eval::{self, EvalError};
+use crate::oracle::ring::{cf_of_scalar, Cf, Num};
+use crate::oracle::sim::{tensor_exact, tensor_float, Circ, G};
+use crate::snap::{eval_graph, graph_json, Tens};
+use quizx::circuit::Circuit;
+use quizx::equality as eq;
+use quizx::extract::ToCircuit;
+use quizx::graph::GraphLike;
+use quizx::simplify::{clifford_simp, full_simp};
+use serde_json::{json, Value};
+
+type VG = quizx::vec_graph::Graph;
+
+// ------------------------------------------------------------------------------------
+// ground truth
+// ------------------------------------------------------------------------------------
+
+#[derive(Clone, Copy, PartialEq, Eq, Debug)]
+enum Truth {
+    Equal,
+    /// equal up to a global phase (a unit-modulus factor different from 1)
+    Phase,
+    Different,
+    Arity,
+    /// float pool only: too close to call
+    Unsure,
+}
+
+impl Truth {
+    fn name(&self) -> &'static str {
+        match self {
+            Truth::Equal => "equal",
+            Truth::Phase => "equal-up-to-phase",
+            Truth::Different => "different",
+            Truth::Arity => "different-arity",
+            Truth::Unsure => "unsure",
+        }
+    }
+}
+
+#[derive(Clone)]
+struct Map {
+    t: Tens,
+    ni: usize,
+    no: usize,
+}
+
+fn truth_of(a: &Map, b: &Map) -> Truth {
+    if (a.ni, a.no) != (b.ni, b.no) {
+        return Truth::Arity;
+    }
+    match (&a.t, &b.t) {
+        (Tens::Exact(x), Tens::Exact(y)) => {
+            if x == y {
+                Truth::Equal
+            } else if eval::proportional_exact(x, y) {
+                // factor of modulus one?
+                match x.iter().position(|v| !v.is_zero()) {
+                    None => Truth::Equal,
+                    Some(i) => {
+                        if x[i].norm_sqr() == y[i].norm_sqr() {
+                            Truth::Phase
+                        } else {
+                            Truth::Different
+                        }
+                    }
+                }
+            } else {
+                Truth::Different
+            }
+        }
+        _ => {
+            let (x, y) = (a.t.to_float(), b.t.to_float());
+            let m = x.iter().chain(y.iter()).map(|v| v.norm()).fold(1.0f64, f64::max);
+            let diff = x.iter().zip(y.iter()).map(|(p, q)| (p - q).norm()).fold(0.0f64, f64::max) / m;
+            if diff <= 1e-9 {
+                return Truth::Equal;
+            }
+            if diff < 1e-6 {
+                return Truth::Unsure;
+            }
+            let nx = x.iter().map(|v| v.norm_sqr()).sum::<f64>().sqrt();
+            let ny = y.iter().map(|v| v.norm_sqr()).sum::<f64>().sqrt();
+            if eval::proportional_float(&x, &y, 1e-9) {
+                if (nx - ny).abs() <= 1e-9 * nx.max(1.0) {
+                    Truth::Phase
+                } else {
+                    Truth::Different
+                }
+            } else if eval::proportional_float(&x, &y, 1e-6) {
+                Truth::Unsure
+            } else {
+                Truth::Different
+            }
+        }
+    }
+}
+
+fn circ_map(c: &Circ) -> Map {
+    if c.is_pi4() {
+        let (t, ni, no) = tensor_exact(c);
+        Map { t: Tens::Exact(t), ni, no }
+    } else {
+        let (t, ni, no) = tensor_float(c);
+        Map { t: Tens::Float(t), ni, no }
+    }
+}
+
+fn graph_map(g: &VG) -> Result<Map, EvalError> {
+    Ok(Map { t: eval_graph(g)?, ni: g.inputs().len(), no: g.outputs().len() })
+}
+
+/// all permutations of 0..n
+fn perms(n: usize) -> Vec<Vec<usize>> {
+    fn rec(cur: &mut Vec<usize>, used: &mut Vec<bool>, n: usize, out: &mut Vec<Vec<usize>>) {
+        if cur.len() == n {
+            out.push(cur.clone());
+            return;
+        }
+        for i in 0..n {
+            if !used[i] {
+                used[i] = true;
+                cur.push(i);
+                rec(cur, used, n, out);
+                cur.pop();
+                used[i] = false;
+            }
+        }
+    }
+    let mut out = vec![];
+    rec(&mut vec![], &mut vec![false; n], n, &mut out);
+    out
+}
+
+/// Classify the residual a^dagger ; b of two n->n maps: is it (up to a factor) a wire
+/// permutation followed by Hadamards on some wires? Only used to discriminate signatures.
+fn residual_class(a: &Map, b: &Map) -> &'static str {
+    if (a.ni, a.no) != (b.ni, b.no) {
+        return "different-arity";
+    }
+    if a.ni != a.no || a.ni > 4 {
+        return "not-square";
+    }
+    let n = a.ni;
+    let (x, y) = (a.t.to_float(), b.t.to_float());
+    let m = eval::compose(&eval::dagger(&x, n, n), n, n, &y, n, n);
+    for sigma in perms(n) {
+        let mut gates = vec![];
+        let mut cur: Vec<usize> = (0..n).collect();
+        for i in 0..n {
+            let j = cur.iter().position(|&q| q == sigma[i]).unwrap();
+            if j != i {
+                gates.push(G::Swap(i, j));
+                cur.swap(i, j);
+            }
+        }
+        let is_id_perm = gates.is_empty();
+        for hb in 0..(1usize << n) {
+            let mut gs = gates.clone();
+            for q in 0..n {
+                if (hb >> q) & 1 == 1 {
+                    gs.push(G::H(q));
+                }
+            }
+            let (cand, _, _) = tensor_float(&Circ { n, gates: gs });
+            if eval::proportional_float(&m, &cand, 1e-9) {
+                return match (is_id_perm, hb == 0) {
+                    (true, true) => "identity-up-to-factor",
+                    (true, false) => "hadamard-layer",
+                    (false, true) => "wire-permutation",
+                    (false, false) => "wire-permutation-and-hadamards",
+                };
+            }
+        }
+    }
+    "other"
+}
+
+// ------------------------------------------------------------------------------------
+// pair generators
+// ------------------------------------------------------------------------------------
+
+#[derive(Clone)]
+struct CPair {
+    a: Circ,
+    b: Circ,
+    how: String,
+}
+
+fn params(n: usize, depth: usize, pool: PhPool) -> CircParams {
+    let mut p = CircParams::unitary(n, depth, pool);
+    p.min_qubits = n;
+    p
+}
+
+fn pick_pool(r: &mut Rng) -> PhPool {
+    if r.chance(0.75) {
+        PhPool::Exact
+    } else {
+        PhPool::Float
+    }
+}
+
+fn rand_gate(r: &mut Rng, n: usize, pool: PhPool) -> G {
+    for _ in 0..30 {
+        let c = gen_circuit(r, &params(n, 2, pool));
+        if !c.gates.is_empty() {
+            let k = r.below(c.gates.len());
+            return c.gates[k].clone();
+        }
+    }
+    G::H(0)
+}
+
+fn is_diagonal(g: &G) -> bool {
+    matches!(g, G::Rz(..) | G::Z(_) | G::S(_) | G::T(_) | G::Sdg(_) | G::Tdg(_) | G::Cz(..) | G::Ccz(..) | G::Pp(..))
+}
+
+fn commute(x: &G, y: &G) -> bool {
+    let (qx, qy) = (x.qubits(), y.qubits());
+    qx.iter().all(|q| !qy.contains(q)) || (is_diagonal(x) && is_diagonal(y))
+}
+
+fn two(r: &mut Rng, n: usize) -> (usize, usize) {
+    let a = r.below(n);
+    let mut b = r.below(n - 1);
+    if b >= a {
+        b += 1;
+    }
+    (a, b)
+}
+
+fn neg(p: (i64, i64)) -> (i64, i64) {
+    (-p.0, p.1)
+}
+
+fn cancelling_pair(r: &mut Rng, n: usize, pool: PhPool) -> Vec<G> {
+    let q = r.below(n);
+    let k = if n >= 3 { r.below(13) } else if n >= 2 { r.below(12) } else { r.below(7) };
+    match k {
+        0 => vec![G::H(q), G::H(q)],
+        1 => vec![G::T(q), G::Tdg(q)],
+        2 => vec![G::Sdg(q), G::S(q)],
+        3 => vec![G::X(q), G::X(q)],
+        4 => vec![G::Z(q), G::Z(q)],
+        5 => {
+            let p = gen_ph(r, pool);
+            vec![G::Rz(q, p), G::Rz(q, neg(p))]
+        }
+        6 => {
+            let p = gen_ph(r, pool);
+            vec![G::Rx(q, neg(p)), G::Rx(q, p)]
+        }
+        7 => {
+            let (a, b) = two(r, n);
+            vec![G::Cx(a, b), G::Cx(a, b)]
+        }
+        8 => {
+            let (a, b) = two(r, n);
+            vec![G::Cz(a, b), G::Cz(b, a)]
+        }
+        9 => {
+            let (a, b) = two(r, n);
+            vec![G::Swap(a, b), G::Swap(b, a)]
+        }
+        10 => {
+            let (a, b) = two(r, n);
+            vec![G::Xcx(a, b), G::Xcx(a, b)]
+        }
+        11 => {
+            let (a, b) = two(r, n);
+            let p = gen_ph(r, pool);
+            vec![G::Pp(vec![a, b], p), G::Pp(vec![b, a], neg(p))]
+        }
+        _ => {
+            let mut qs: Vec<usize> = (0..n).collect();
+            r.shuffle(&mut qs);
+            vec![G::Ccz(qs[0], qs[1], qs[2]), G::Ccz(qs[2], qs[0], qs[1])]
+        }
+    }
+}
+
+fn insert_at(gs: &mut Vec<G>, pos: usize, ins: Vec<G>) {
+    let tail = gs.split_off(pos);
+    gs.extend(ins);
+    gs.extend(tail);
+}
+
+/// swap network realising a random non-trivial permutation; SWAP gates or 3 CNOTs each
+fn swap_network(r: &mut Rng, n: usize, as_cnots: bool) -> Vec<G> {
+    let mut out = vec![];
+    for _ in 0..(1 + r.below(3)) {
+        let (a, b) = two(r, n);
+        if as_cnots {
+            out.extend([G::Cx(a, b), G::Cx(b, a), G::Cx(a, b)]);
+        } else {
+            out.push(G::Swap(a, b));
+        }
+    }
+    out
+}
+
+fn reextract(c: &Circ, full: bool) -> Result<Circ, String> {
+    let qc = to_quizx(c);
+    let r = guarded(|| {
+        let mut g: VG = qc.to_graph();
+        if full {
+            full_simp(&mut g);
+        } else {
+            clifford_simp(&mut g);
+        }
+        g.to_circuit().map_err(|e| e.0)
+    });
+    match r {
+        Ok(Ok(c2)) => from_quizx(&c2),
+        Ok(Err(m)) => Err(format!("extraction failed: {m}")),
+        Err(e) => Err(format!("pipeline panicked: {}", e.text())),
+    }
+}
+
+fn gen_pair(r: &mut Rng, family: &str, max_depth: usize) -> Option<CPair> {
+    let pool = pick_pool(r);
+    let n = 1 + r.below(4);
+    let base = |r: &mut Rng, n: usize, d: usize| gen_circuit(r, &params(n, d, pool));
+    Some(match family {
+        "independent" => {
+            // short circuits over a small pool so that equal pairs do occur
+            let mut p = params(n, 3, PhPool::Exact);
+            p.rotations = false;
+            p.pp = false;
+            p.ccz = false;
+            p.xcx = false;
+            let (a, b) = if r.chance(0.5) { (gen_circuit(r, &p), gen_circuit(r, &p)) } else { (base(r, n, max_depth), base(r, n, max_depth)) };
+            CPair { a, b, how: "independent random, same qubit count".into() }
+        }
+        "different-arity" => {
+            let mut m = 1 + r.below(4);
+            if m == n {
+                m = if n == 4 { 3 } else { n + 1 };
+            }
+            let a = base(r, n, max_depth);
+            let b = if r.chance(0.3) {
+                // the same gates on a larger/smaller register when they fit
+                let gs: Vec<G> = a.gates.iter().filter(|g| g.qubits().iter().all(|&q| q < m)).cloned().collect();
+                Circ { n: m, gates: gs }
+            } else {
+                base(r, m, max_depth)
+            };
+            CPair { a, b, how: format!("{n} vs {m} qubits") }
+        }
+        "reextract" => {
+            let a = base(r, n, max_depth);
+            let full = r.chance(0.5);
+            match reextract(&a, full) {
+                Ok(b) => CPair { a, b, how: format!("to_graph -> {} -> extract", if full { "full_simp" } else { "clifford_simp" }) },
+                Err(m) => {
+                    ctx().count("gen:reextract-unavailable", 1);
+                    ctx().sample_n(2, || json!({"note": "re-extraction unavailable (not judged here, see C03)", "why": m, "circuit": circ_json(&a)}));
+                    return None;
+                }
+            }
+        }
+        "commuted" => {
+            let a = base(r, n, max_depth.max(4));
+            let mut b = a.clone();
+            let mut moved = 0;
+            if b.gates.len() >= 2 {
+                for _ in 0..(4 * b.gates.len()) {
+                    let i = r.below(b.gates.len() - 1);
+                    if b.gates[i] != b.gates[i + 1] && commute(&b.gates[i], &b.gates[i + 1]) {
+                        b.gates.swap(i, i + 1);
+                        moved += 1;
+                    }
+                }
+            }
+            CPair { a, b, how: format!("{moved} transpositions of commuting neighbours") }
+        }
+        "cancelling" => {
+            let a = base(r, n, max_depth);
+            let mut b = a.clone();
+            let k = 1 + r.below(3);
+            for _ in 0..k {
+                let pos = r.below(b.gates.len() + 1);
+                let ins = cancelling_pair(r, n, pool);
+                insert_at(&mut b.gates, pos, ins);
+            }
+            if r.chance(0.5) {
+                CPair { a, b, how: format!("{k} cancelling pairs inserted into the second") }
+            } else {
+                CPair { a: b, b: a, how: format!("{k} cancelling pairs inserted into the first") }
+            }
+        }
+        "one-gate" => {
+            let a = base(r, n, max_depth);
+            let mut b = a.clone();
+            let how = match r.below(4) {
+                0 => {
+                    b.gates.push(rand_gate(r, n, pool));
+                    "one gate appended"
+                }
+                1 if !b.gates.is_empty() => {
+                    let i = r.below(b.gates.len());
+                    b.gates.remove(i);
+                    "one gate removed"
+                }
+                2 if !b.gates.is_empty() => {
+                    let i = r.below(b.gates.len());
+                    b.gates[i] = rand_gate(r, n, pool);
+                    "one gate replaced"
+                }
+                _ => {
+                    let pos = r.below(b.gates.len() + 1);
+                    let g = rand_gate(r, n, pool);
+                    insert_at(&mut b.gates, pos, vec![g]);
+                    "one gate inserted"
+                }
+            };
+            if r.chance(0.5) {
+                CPair { a, b, how: how.into() }
+            } else {
+                CPair { a: b, b: a, how: format!("{how} (sides exchanged)") }
+            }
+        }
+        "global-phase" => {
+            let a = base(r, n, max_depth);
+            let mut b = a.clone();
+            let q = r.below(n);
+            let pos = r.below(b.gates.len() + 1);
+            let (ins, how) = match r.below(4) {
+                0 => (vec![G::Z(q), G::X(q), G::Z(q), G::X(q)], "z x z x = -1".to_string()),
+                1 => (vec![G::X(q), G::Z(q), G::X(q), G::Z(q)], "x z x z = -1".to_string()),
+                2 => (vec![G::S(q), G::X(q), G::S(q), G::X(q)], "s x s x = i".to_string()),
+                _ => {
+                    let p = gen_ph(r, pool);
+                    (vec![G::Rz(q, p), G::X(q), G::Rz(q, p), G::X(q)], format!("rz(a) x rz(a) x = e^(i pi a), a = {}/{}", p.0, p.1))
+                }
+            };
+            insert_at(&mut b.gates, pos, ins);
+            if r.chance(0.3) {
+                let pos = r.below(b.gates.len() + 1);
+                let ins = cancelling_pair(r, n, pool);
+                insert_at(&mut b.gates, pos, ins);
+            }
+            if r.chance(0.5) {
+                CPair { a, b, how }
+            } else {
+                CPair { a: b, b: a, how: format!("{how} (sides exchanged)") }
+            }
+        }
+        "hadamard-wires" => {
+            let a = if r.chance(0.25) { Circ { n, gates: vec![] } } else { base(r, n, max_depth) };
+            let mut b = a.clone();
+            let mut qs: Vec<usize> = (0..n).collect();
+            r.shuffle(&mut qs);
+            let k = 1 + r.below(n);
+            let front = r.chance(0.4);
+            for &q in &qs[..k] {
+                if front {
+                    b.gates.insert(0, G::H(q));
+                } else {
+                    b.gates.push(G::H(q));
+                }
+            }
+            if r.chance(0.5) {
+                CPair { a, b, how: format!("Hadamard on {k} wire(s) at the {}", if front { "front" } else { "end" }) }
+            } else {
+                CPair { a: b, b: a, how: format!("Hadamard on {k} wire(s) at the {} (sides exchanged)", if front { "front" } else { "end" }) }
+            }
+        }
+        "wire-permutation" => {
+            let n = n.max(2);
+            let a = if r.chance(0.25) { Circ { n, gates: vec![] } } else { base(r, n, max_depth) };
+            let mut b = a.clone();
+            let as_cnots = r.chance(0.5);
+            let net = swap_network(r, n, as_cnots);
+            if r.chance(0.4) {
+                insert_at(&mut b.gates, 0, net);
+            } else {
+                b.gates.extend(net);
+            }
+            CPair { a, b, how: format!("swap network appended ({})", if as_cnots { "3 CNOTs per swap" } else { "SWAP gates" }) }
+        }
+        "ancilla-observed" => {
+            let mut p = params(n.max(2), max_depth, PhPool::Exact);
+            p.ancilla = true;
+            let a = gen_circuit(r, &p);
+            let mut b = a.clone();
+            if r.chance(0.6) && !b.gates.is_empty() {
+                // change something that is not an ancilla marker
+                let idx: Vec<usize> = (0..b.gates.len()).filter(|&i| !matches!(b.gates[i], G::InitAnc(_) | G::PostSel(_))).collect();
+                if !idx.is_empty() {
+                    let i = *r.pick(&idx);
+                    let q = b.gates[i].qubits()[0];
+                    b.gates[i] = if r.chance(0.5) { G::H(q) } else { G::T(q) };
+                }
+            }
+            CPair { a, b, how: "circuits with ancillae / post-selection (observed only)".into() }
+        }
+        _ => unreachable!("unknown family {family}"),
+    })
+}
+
+// ------------------------------------------------------------------------------------
+// judging
+// ------------------------------------------------------------------------------------
+
+fn pclass(e: &Caught) -> String {
+    match e {
+        Caught::Panic { msg, .. } => {
+            let m: String = msg.chars().filter(|c| !c.is_ascii_digit()).take(44).collect();
+            format!("panic:{}", m.trim())
+        }
+        Caught::Budget(r) => format!("budget:{r}"),
+        Caught::Oracle(_) => "oracle".into(),
+    }
+}
+
+fn ans_name(a: Option<bool>) -> &'static str {
+    match a {
+        Some(true) => "Some(true)",
+        Some(false) => "Some(false)",
+        None => "None",
+    }
+}
+
+struct Judge<'a> {
+    family: &'static str,
+    index: u64,
+    pair: &'a CPair,
+    /// extra discriminator appended to every signature of this level (translation fault)
+    suffix: String,
+    /// either circuit contains a SWAP gate (appended to signatures whose residual is a wire permutation)
+    has_swap: bool,
+    /// the two diagrams the rewriting check works on (for the scalar probe)
+    graphs: Option<(&'a VG, &'a VG)>,
+    ctxjson: Value,
+}
+
+/// Diagnosis aid for wrong answers that hinge on the scalar of the simplified composite
+/// (exact mode): rebuild the composite the way the checker does and compare the value
+/// `complex_value()` reports with the value actually stored (read through the raw hook).
+fn probe_scalar(graphs: Option<(&VG, &VG)>) -> &'static str {
+    let Some((ga, gb)) = graphs else { return "no-probe" };
+    let r = guarded(|| {
+        let mut g = ga.to_adjoint();
+        g.plug(gb);
+        full_simp(&mut g);
+        (g.is_identity(), *g.scalar())
+    });
+    match r {
+        Ok((true, s)) => {
+            let stored = cf_of_scalar(&s);
+            match guarded(|| s.complex_value()) {
+                Ok(conv) => {
+                    if (stored - conv).norm() > 1e-9 * stored.norm().max(1.0) {
+                        "complex_value()-differs-from-stored-scalar"
+                    } else {
+                        "stored-scalar-read-correctly"
+                    }
+                }
+                Err(_) => "complex_value()-panics",
+            }
+        }
+        _ => "not-reproduced",
+    }
+}
+
+impl Judge<'_> {
+    fn detail(&self, entry: &str, what: &str, extra: Value) -> Value {
+        json!({
+            "entry": entry, "what": what, "how_the_pair_was_made": self.pair.how,
+            "circuit_a": circ_json(&self.pair.a), "circuit_b": circ_json(&self.pair.b),
+            "context": self.ctxjson, "extra": extra,
+        })
+    }
+
+    /// rewriting-based check
+    fn option(&self, entry: &str, level: &str, up_to: bool, ans: Result<Option<bool>, Caught>, truth: Truth, a: &Map, b: &Map, pool: &str) {
+        let c = ctx();
+        let mode = if up_to { "up-to-phase" } else { "exact" };
+        let ans = match ans {
+            Err(Caught::Oracle(m)) => {
+                c.inconclusive("oracle-error", json!({"msg": m}));
+                return;
+            }
+            Err(e) => {
+                c.violation(&format!("{entry}|{}{}", pclass(&e), self.suffix), self.family, self.index, self.detail(entry, "panic", json!({"panic": e.text(), "mode": mode})));
+                return;
+            }
+            Ok(a) => a,
+        };
+        c.count(&format!("answer:{level}:{mode}:{}", ans_name(ans)), 1);
+        c.count(&format!("answer-by-family:{}:{level}:{mode}:{}", self.family, ans_name(ans)), 1);
+        if ans.is_some() {
+            c.count(&format!("definite:{level}:{mode}:truth={}", truth.name()), 1);
+        } else {
+            c.count(&format!("unknown:{level}:{mode}:truth={}", truth.name()), 1);
+        }
+        if truth == Truth::Unsure {
+            if ans.is_some() {
+                c.inconclusive("float-truth-too-close-to-call", json!({"entry": entry, "answer": ans_name(ans)}));
+            }
+            return;
+        }
+        match ans {
+            Some(true) => {
+                let ok = truth == Truth::Equal || (up_to && truth == Truth::Phase);
+                if !ok {
+                    let res = residual_class(a, b);
+                    let sig = if truth == Truth::Phase {
+                        format!("{entry}|answered-equal|exact-mode-but-global-phase-differs|{pool}|{}{}", probe_scalar(self.graphs), self.suffix)
+                    } else {
+                        let swap = if self.has_swap && res.starts_with("wire-permutation") { "|circuit-has-swap-gate" } else { "" };
+                        format!("{entry}|answered-equal|truth={}|residual={res}{swap}{}", truth.name(), self.suffix)
+                    };
+                    c.violation(&sig, self.family, self.index, self.detail(entry, "answered Some(true)", json!({"mode": mode, "truth": truth.name(), "residual": res, "a": a.t.brief(), "b": b.t.brief()})));
+                }
+            }
+            Some(false) => {
+                if truth == Truth::Equal {
+                    c.violation(
+                        &format!("{entry}|answered-not-equal|truth=equal|mode={mode}|{pool}|{}{}", if up_to { "no-probe" } else { probe_scalar(self.graphs) }, self.suffix),
+                        self.family,
+                        self.index,
+                        self.detail(entry, "answered Some(false)", json!({"mode": mode, "truth": truth.name(), "a": a.t.brief()})),
+                    );
+                }
+            }
+            None => {}
+        }
+    }
+
+    fn tensor(&self, entry: &str, level: &str, ans: Result<bool, Caught>, truth: Truth, pool: &str) {
+        let c = ctx();
+        let ans = match ans {
+            Err(Caught::Oracle(m)) => {
+                c.inconclusive("oracle-error", json!({"msg": m}));
+                return;
+            }
+            Err(e) => {
+                c.violation(&format!("{entry}|{}{}", pclass(&e), self.suffix), self.family, self.index, self.detail(entry, "panic", json!(e.text())));
+                return;
+            }
+            Ok(a) => a,
+        };
+        c.count(&format!("answer:{level}:tensor:{ans}:truth={}", truth.name()), 1);
+        if truth == Truth::Unsure {
+            return;
+        }
+        if ans && truth != Truth::Equal {
+            c.violation(&format!("{entry}|true-but-truth={}{}", truth.name(), self.suffix), self.family, self.index, self.detail(entry, "answered true", json!({"truth": truth.name()})));
+        } else if !ans && truth == Truth::Equal {
+            if pool == "exact" {
+                c.violation(&format!("{entry}|false-but-exactly-equal{}", self.suffix), self.family, self.index, self.detail(entry, "answered false", json!({"truth": truth.name()})));
+            } else {
+                // floating-point representations of equal numbers may differ in the last bits
+                c.count(&format!("observed:{level}:tensor-false-on-float-pool-equal-pair"), 1);
+            }
+        }
+    }
+
+    fn dim(&self, entry: &str, level: &str, ans: Result<bool, Caught>, same_arity: bool) {
+        let c = ctx();
+        match ans {
+            Err(Caught::Oracle(m)) => c.inconclusive("oracle-error", json!({"msg": m})),
+            Err(e) => c.violation(&format!("{entry}|{}{}", pclass(&e), self.suffix), self.family, self.index, self.detail(entry, "panic", json!(e.text()))),
+            Ok(a) => {
+                c.count(&format!("answer:{level}:dim:{a}"), 1);
+                if a != same_arity {
+                    c.violation(&format!("{entry}|answered-{a}-but-arities-{}", if same_arity { "equal" } else { "differ" }), self.family, self.index, self.detail(entry, "dimension check", json!({"same_arity": same_arity})));
+                }
+            }
+        }
+    }
+}
+
+/// `guarded` plus the largest wall time seen per call kind (evidence: `maxima.max_ms:*`)
+fn timed_as<T>(kind: &str, f: impl FnOnce() -> T) -> Result<T, Caught> {
+    let t0 = std::time::Instant::now();
+    let r = guarded(f);
+    ctx().maximum(&format!("max_ms:{kind}"), t0.elapsed().as_millis() as u64);
+    r
+}
+
+fn timed<T>(f: impl FnOnce() -> T) -> Result<T, Caught> {
+    timed_as("equality-entry-point", f)
+}
+
+/// `equal_graph_tensor` is documented as feasible only for small diagrams: quizx contracts
+/// vertex by vertex in a fixed order and keeps one tensor index per vertex that still has
+/// unseen neighbours. This predicts the largest number of simultaneous indices for that
+/// order (a cost estimate only, never part of a verdict); wider diagrams are not passed.
+const MAX_TENSOR_WIDTH: usize = 16;
+
+fn contraction_width(g: &VG) -> usize {
+    use quizx::graph::VType;
+    let mid = g.vertices().filter(|&v| g.vertex_type(v) != VType::B);
+    let mut vs: Vec<usize> = g.inputs().iter().copied().chain(mid).chain(g.outputs().iter().copied()).collect();
+    vs.reverse();
+    let mut seen: std::collections::HashMap<usize, usize> = Default::default();
+    let mut open: std::collections::HashSet<usize> = Default::default();
+    let mut width = 0;
+    for v in vs {
+        open.insert(v);
+        width = width.max(open.len());
+        let mut deg_v = 0;
+        for w in g.neighbors(v) {
+            if let Some(dw) = seen.get_mut(&w) {
+                deg_v += 1;
+                *dw += 1;
+                if g.vertex_type(w) != VType::B && g.degree(w) == *dw {
+                    open.remove(&w);
+                }
+            }
+        }
+        if g.vertex_type(v) != VType::B && g.degree(v) == deg_v {
+            open.remove(&v);
+        }
+        seen.insert(v, deg_v);
+    }
+    width
+}
+
+fn prep_name(k: usize) -> &'static str {
+    ["raw", "clifford_simp", "full_simp"][k]
+}
+
+fn prepare(qc: &Circuit, k: usize) -> Result<VG, Caught> {
+    guarded(|| {
+        let mut g: VG = qc.to_graph();
+        match k {
+            1 => {
+                clifford_simp(&mut g);
+            }
+            2 => {
+                full_simp(&mut g);
+            }
+            _ => {}
+        }
+        g
+    })
+}
+
+fn pair_case(family: &'static str, index: u64, r: &mut Rng, pair: CPair, judged: bool) {
+    let c = ctx();
+    let (qa, qb) = (to_quizx(&pair.a), to_quizx(&pair.b));
+    let pool = if pair.a.is_pi4() && pair.b.is_pi4() { "exact" } else { "float" };
+    let has_swap = pair.a.gates.iter().chain(pair.b.gates.iter()).any(|g| matches!(g, G::Swap(..)));
+    let t0 = std::time::Instant::now();
+    let (ma, mb) = (circ_map(&pair.a), circ_map(&pair.b));
+    c.maximum("max_ms:oracle-simulator", t0.elapsed().as_millis() as u64);
+    let truth = truth_of(&ma, &mb);
+    c.count(&format!("truth:{family}:{}", truth.name()), 1);
+    c.count(&format!("pool:{pool}"), 1);
+
+    if !judged {
+        // non-unitary circuits: the method is not meaningful, only observe
+        for up_to in [true, false] {
+            if let Ok(ans) = timed_as("equal_circuit_with_options", || eq::equal_circuit_with_options(&qa, &qb, up_to)) {
+                let verdict = match (ans, truth) {
+                    (None, _) => "unknown",
+                    (_, Truth::Unsure) => "unsure",
+                    (Some(true), Truth::Equal) => "right",
+                    (Some(true), Truth::Phase) if up_to => "right",
+                    (Some(true), _) => "wrong-equal",
+                    (Some(false), Truth::Equal) => "wrong-not-equal",
+                    (Some(false), _) => "right",
+                };
+                c.count(&format!("observed:nonunitary:{}:{verdict}", if up_to { "up-to-phase" } else { "exact" }), 1);
+            } else {
+                c.count("observed:nonunitary:panic", 1);
+            }
+        }
+        c.case(family, None);
+        return;
+    }
+
+    // ---- graph level: raw or simplified translations; truth from the evaluator on the
+    // very diagrams handed to the checker
+    let (ka, kb) = (r.below(3), r.below(3));
+    let graphs = (prepare(&qa, ka), prepare(&qb, kb));
+    let mut translation_fault = String::new();
+    if let (Ok(ga), Ok(gb)) = &graphs {
+        let t0 = std::time::Instant::now();
+        let evaluated = (graph_map(ga), graph_map(gb));
+        c.maximum("max_ms:oracle-evaluator", t0.elapsed().as_millis() as u64);
+        match evaluated {
+            (Ok(ea), Ok(eb)) => {
+                // does the diagram denote what the simulator says? (C02/C01 territory: used
+                // only to tell a translation fault from an equality-checker fault)
+                let ta = truth_of(&ea, &ma);
+                let tb = truth_of(&eb, &mb);
+                if !matches!(ta, Truth::Equal | Truth::Unsure) || !matches!(tb, Truth::Equal | Truth::Unsure) {
+                    translation_fault = format!("|diagram-differs-from-simulator{}", if has_swap { "+swap-gate" } else { "" });
+                    c.count("observed:translated-diagram-differs-from-simulator", 1);
+                }
+                let gtruth = truth_of(&ea, &eb);
+                c.count(&format!("graph-truth:{}", gtruth.name()), 1);
+                let j = Judge {
+                    family,
+                    index,
+                    pair: &pair,
+                    suffix: String::new(),
+                    has_swap: false,
+                    graphs: Some((ga, gb)),
+                    ctxjson: json!({"level": "graph", "prep_a": prep_name(ka), "prep_b": prep_name(kb), "graph_a": graph_json(ga), "graph_b": graph_json(gb)}),
+                };
+                let gpool = if ea.t.is_exact() && eb.t.is_exact() { "exact" } else { "float" };
+                for up_to in [true, false] {
+                    let ans = timed_as("equal_graph_with_options", || eq::equal_graph_with_options(ga, gb, up_to));
+                    if up_to {
+                        if let (Ok(x), Ok(y)) = (&ans, timed_as("equal_graph", || eq::equal_graph(ga, gb))) {
+                            if *x != y {
+                                c.violation("equal_graph|differs-from-equal_graph_with_options(true)", family, index, j.detail("equal_graph", "wrapper disagrees", json!({"wrapper": ans_name(y), "with_options": ans_name(*x)})));
+                            }
+                        }
+                    }
+                    j.option("equal_graph_with_options", "graph", up_to, ans, gtruth, &ea, &eb, gpool);
+                }
+                let width = contraction_width(ga).max(contraction_width(gb));
+                c.maximum("max_contraction_width_passed_to_equal_graph_tensor", width.min(MAX_TENSOR_WIDTH) as u64);
+                if width <= MAX_TENSOR_WIDTH {
+                    j.tensor("equal_graph_tensor", "graph", timed_as("equal_graph_tensor", || eq::equal_graph_tensor(ga, gb)), gtruth, gpool);
+                } else {
+                    c.count("not-called:equal_graph_tensor:contraction-too-wide", 1);
+                }
+                j.dim("equal_graph_dim", "graph", timed_as("equal_graph_dim", || eq::equal_graph_dim(ga, gb)), gtruth != Truth::Arity);
+                c.evals(4);
+            }
+            (Err(EvalError::TooWide(_)), _) | (_, Err(EvalError::TooWide(_))) => c.skipped(),
+            (Err(EvalError::IllFormed(m)), _) | (_, Err(EvalError::IllFormed(m))) => {
+                c.inconclusive("derived-diagram-ill-formed", json!({"why": m, "circuit_a": circ_json(&pair.a), "circuit_b": circ_json(&pair.b)}));
+            }
+        }
+    } else {
+        c.inconclusive("diagram-preparation-panicked", json!({"circuit_a": circ_json(&pair.a), "circuit_b": circ_json(&pair.b)}));
+    }
+
+    // ---- circuit level: truth from the simulator
+    let raw: Option<(VG, VG)> = match (prepare(&qa, 0), prepare(&qb, 0)) {
+        (Ok(x), Ok(y)) => Some((x, y)),
+        _ => None,
+    };
+    let j = Judge {
+        family,
+        index,
+        pair: &pair,
+        suffix: translation_fault.clone(),
+        has_swap,
+        graphs: raw.as_ref().map(|(x, y)| (x, y)),
+        ctxjson: json!({"level": "circuit", "pool": pool}),
+    };
+    for up_to in [true, false] {
+        let ans = timed_as("equal_circuit_with_options", || eq::equal_circuit_with_options(&qa, &qb, up_to));
+        if up_to {
+            if let (Ok(x), Ok(y)) = (&ans, timed_as("equal_circuit", || eq::equal_circuit(&qa, &qb))) {
+                if *x != y {
+                    c.violation("equal_circuit|differs-from-equal_circuit_with_options(true)", family, index, j.detail("equal_circuit", "wrapper disagrees", json!({"wrapper": ans_name(y), "with_options": ans_name(*x)})));
+                }
+            }
+        }
+        j.option("equal_circuit_with_options", "circuit", up_to, ans, truth, &ma, &mb, pool);
+    }
+    j.tensor("equal_circuit_tensor", "circuit", timed_as("equal_circuit_tensor", || eq::equal_circuit_tensor(&qa, &qb)), truth, pool);
+    j.dim("equal_circuit_dim", "circuit", timed_as("equal_circuit_dim", || eq::equal_circuit_dim(&qa, &qb)), truth != Truth::Arity);
+    c.evals(3);
+
+    let nontrivial = !pair.a.gates.is_empty() || !pair.b.gates.is_empty();
+    let h = circ_hash(&pair.a).rotate_left(21) ^ circ_hash(&pair.b);
+    c.case(family, if nontrivial { Some(h) } else { None });
+    c.sample_n(5, || json!({"family": family, "index": index, "how": pair.how, "a": circ_json(&pair.a), "b": circ_json(&pair.b), "truth": truth.name()}));
+}
+
+fn self_test() -> Result<(), String> {
+    // ground-truth classifier on hand-made pairs
+    let m = |gs: Vec<G>, n: usize| circ_map(&Circ { n, gates: gs });
+    let id1 = m(vec![], 1);
+    if truth_of(&id1, &m(vec![G::H(0), G::H(0)], 1)) != Truth::Equal {
+        return Err("h h = id".into());
+    }
+    if truth_of(&id1, &m(vec![G::Z(0), G::X(0), G::Z(0), G::X(0)], 1)) != Truth::Phase {
+        return Err("zxzx = -id".into());
+    }
+    if truth_of(&id1, &m(vec![G::H(0)], 1)) != Truth::Different {
+        return Err("h != id".into());
+    }
+    if truth_of(&id1, &m(vec![], 2)) != Truth::Arity {
+        return Err("arity".into());
+    }
+    if truth_of(&m(vec![G::Rz(0, (1, 3))], 1), &m(vec![G::X(0), G::Rz(0, (-1, 3)), G::X(0)], 1)) != Truth::Phase {
+        return Err("float: rz(a) ~ x rz(-a) x".into());
+    }
+    if truth_of(&m(vec![G::Rz(0, (1, 3)), G::Rz(0, (1, 6))], 1), &m(vec![G::S(0)], 1)) != Truth::Equal {
+        return Err("float: rz(1/3) rz(1/6) = s".into());
+    }
+    if residual_class(&id1, &m(vec![G::H(0)], 1)) != "hadamard-layer" {
+        return Err("residual H".into());
+    }
+    if residual_class(&m(vec![G::Cx(0, 1)], 2), &m(vec![G::Cx(0, 1), G::Swap(0, 1)], 2)) != "wire-permutation" {
+        return Err("residual swap".into());
+    }
+    if residual_class(&m(vec![], 2), &m(vec![G::Cx(0, 1)], 2)) != "other" {
+        return Err("residual other".into());
+    }
+    if residual_class(&m(vec![G::T(1)], 3), &m(vec![G::T(1), G::Swap(0, 2), G::H(1), G::Z(0), G::X(0), G::Z(0), G::X(0)], 3)) != "wire-permutation-and-hadamards" {
+        return Err("residual perm+H".into());
+    }
+    let _ = Cf::new(0.0, 0.0);
+    Ok(())
+}
 
 pub fn run() {
-    ctx().harness_error("C12 monitor not implemented yet");
+    let c = ctx();
+    if let Err(e) = self_test() {
+        c.harness_error(&format!("C12 ground-truth self-test failed: {e}"));
+        return;
+    }
+    let t = c.tier;
+    c.set_rule(
+        "cases = pairs of unitary circuits (1..4 qubits) with a relation known by construction and confirmed by the simulator; each pair is put through 5 circuit-level and 5 graph-level entry points (evaluations counts entry-point groups); a pair is non-trivial when at least one circuit has a gate; distinct = distinct ordered pairs (64-bit hash). Counters answer:* / definite:* / unknown:* show how many definite answers were observed per level and mode",
+    );
+    c.assume("gate-matrix simulator O3 (circuit level) and diagram evaluator O2 (graph level) are correct (self-tested at start, cross-checked against each other in C02/C08)");
+    c.assume("float pool: pairs closer than 1e-6 but not within 1e-9 are not judged (inconclusive); Some(false)/tensor-false on float-equal pairs is judged for the rewriting check and only observed for the tensor check");
+    c.assume("only unitary circuits are judged (composition with the adjoint is the documented method); ancilla circuits are observed");
+    let n = t.pick(500usize, 10_000usize);
+    let depth = t.pick(12usize, 24usize);
+    let mut walls = serde_json::Map::new();
+    macro_rules! fam {
+        ($name:literal, $count:expr, $judged:expr) => {
+            let t0 = std::time::Instant::now();
+            par_cases($name, $count, move |r, i| {
+                if let Some(p) = gen_pair(r, $name, depth) {
+                    pair_case($name, i, r, p, $judged);
+                } else {
+                    ctx().skipped();
+                }
+            });
+            walls.insert($name.to_string(), json!((t0.elapsed().as_secs_f64() * 10.0).round() / 10.0));
+        };
+    }
+    fam!("independent", n * 2, true);
+    fam!("different-arity", n / 2, true);
+    fam!("reextract", n, true);
+    fam!("commuted", n, true);
+    fam!("cancelling", n, true);
+    fam!("one-gate", n, true);
+    fam!("global-phase", n, true);
+    fam!("hadamard-wires", n, true);
+    fam!("wire-permutation", n, true);
+    fam!("ancilla-observed", n / 2, false);
+    c.extra("family_wall_s", Value::Object(walls));
+    c.extra("exhaustive", json!(false));
 }
